@@ -122,10 +122,12 @@ def run_one(sid, checks, tier):
     return sid, res
 
 
-def do_run(only, checks, tier, jobs, record):
+def do_run(only, checks, tier, jobs, record, kind=None):
     ids = sorted(x for x in os.listdir(SEEDED) if os.path.isdir(os.path.join(SEEDED, x)))
     if only:
         ids = [x for x in ids if x in only]
+    if kind:
+        ids = [x for x in ids if (json.load(open(os.path.join(SEEDED, x, "meta.json"))).get("kind") or "breaking") == kind]
     missed = 0
     with ThreadPoolExecutor(jobs) as ex:
         for sid, res in ex.map(lambda s: run_one(s, checks, tier), ids):
@@ -165,11 +167,12 @@ def main():
     r.add_argument("--tier", default="quick")
     r.add_argument("--jobs", type=int, default=3)
     r.add_argument("--record", action="store_true")
+    r.add_argument("--kind", choices=["breaking", "preserving"])
     a = ap.parse_args()
     if a.cmd == "import":
         return do_import(a.src, a.id, [c for c in a.expect.split(",") if c], a.preserving)
     if a.cmd == "run":
-        return do_run(a.only.split(",") if a.only else None, a.checks.split(",") if a.checks else None, a.tier, a.jobs, a.record)
+        return do_run(a.only.split(",") if a.only else None, a.checks.split(",") if a.checks else None, a.tier, a.jobs, a.record, a.kind)
     ap.print_help()
     return 2
 
